@@ -108,24 +108,27 @@ Definition loop_fuel (S : styles) : nat := Datatypes.S (Datatypes.S (Datatypes.S
 Inductive rl_result := RLFuel | RLDone (c : cstyle) (pt : list cname).
 
 (* the `while extends:` loop of resolve_counter *)
-Fixpoint resolve_loop (fuel : nat) (S : styles) (c : cstyle) (ext : bool) (sys : string) (pt : list cname)
+Fixpoint resolve_loop (fuel : nat) (S : styles) (c : cstyle) (ext : bool) (sys : string) (et : list cname)
   : rl_result :=
-  if negb ext then RLDone c pt else
+  (* et = extended_types: the names met on this extends chain (its own list, not the fallback list) *)
+  if negb ext then RLDone c et else
   match fuel with
   | O => RLFuel
   | Datatypes.S f =>
-    match lookup sys S with
-    | None => RLDone c pt                                        (* else: return counter *)
+    (* if system not in self and 'decimal' in self: system = 'decimal'   (extending an undefined style) *)
+    let sys' := if has S sys then sys else if has S "decimal" then "decimal"%string else sys in
+    match lookup sys' S with
+    | None => RLDone c et                                        (* else: return counter *)
     | Some ec =>
       let c1 := set_system c (c_system ec) in
-      let pt1 := pt ++ [CName sys] in
+      let et1 := et ++ [CName sys'] in
       let '(ext1, sys1, _) := sys_of c1 in
-      if ext1 && mem_name sys1 pt1
+      if ext1 && mem_name sys1 et1
       then (* a cycle: go on with ('extends', 'decimal'); the descriptors of the extended style are copied only
               when it is the cycle's entry point, i.e. a style that extends itself (cycle_start == extended_name) *)
-           if String.eqb sys1 sys then resolve_loop f S (merge c1 ec) true "decimal"%string pt1
-           else resolve_loop f S c1 true "decimal"%string pt1
-      else resolve_loop f S (merge c1 ec) ext1 sys1 pt1
+           if String.eqb sys1 sys' then resolve_loop f S (merge c1 ec) true "decimal"%string et1
+           else resolve_loop f S c1 true "decimal"%string et1
+      else resolve_loop f S (merge c1 ec) ext1 sys1 et1
     end
   end.
 
@@ -148,11 +151,11 @@ Definition resolve (S : styles) (cn : cname) (prev : option (list cname)) : reso
       | None => (ResNone, prev)
       | Some c0 =>
         if (match prev with Some l => mem_cname cn l | None => false end) then (ResNone, prev) else
-        let pt := orelse prev [] ++ [cn] in
+        (* previous_types.append(counter_name); extended_types = [counter_name] *)
         let '(ext, sys, _) := sys_of c0 in
-        match resolve_loop (loop_fuel S) S c0 ext sys pt with
+        match resolve_loop (loop_fuel S) S c0 ext sys [cn] with
         | RLFuel => (ResFuel, prev)
-        | RLDone c pt' => (ResSome c, match prev with Some _ => Some pt' | None => None end)
+        | RLDone c _ => (ResSome c, match prev with Some l => Some (l ++ [cn]) | None => None end)
         end
       end
   end.
@@ -339,17 +342,11 @@ Definition render_step (S : styles) (v : Z) (cn : cname) (prev : option (list cn
   | (ResNone, _) => if has S "decimal" then CallDecimal v else Done (ROk [])
   | (ResSome c, prev1) =>
     let '(ext, sys, fx) := sys_of c in
-    match (match prev1 with
-           | None => Some []
-           | Some l => if mem_name sys l then None else Some l
-           end) with
-    | None => CallDecimal v
-    | Some l =>
-      match extend_loop (loop_fuel S) S c ext sys fx (l ++ [cn]) with
-      | ELFuel => Done RFuel
-      | ELDecimal => CallDecimal v
-      | ELOk c' sys' fx' pt => render_resolved c' sys' fx' pt v
-      end
+    (* circular fallbacks are avoided by resolve_counter: no test on the system keyword any more *)
+    match extend_loop (loop_fuel S) S c ext sys fx (orelse prev1 [] ++ [cn]) with
+    | ELFuel => Done RFuel
+    | ELDecimal => CallDecimal v
+    | ELOk c' sys' fx' pt => render_resolved c' sys' fx' pt v
     end
   end.
 
